@@ -107,7 +107,9 @@ def main():
      },
      "engines": [
        {"name": "mcx", "path": "/verif/mcx", "serves_properties": sorted(CHECKS), "kind_free_text": "hand-written explorer: sharded exhaustive enumeration of finite case spaces, deviation-bounded DFS over in-execution choice points (map order, schedules), replay files, evidence writer"},
-       {"name": "ref", "path": "/verif/ref", "serves_properties": sorted(CHECKS), "kind_free_text": "reference model in Go, independent of the implementation"},
+       {"name": "ref", "path": "/verif/ref", "serves_properties": sorted(CHECKS), "kind_free_text": "reference model in Go, independent of the implementation (glob, rules, canonical JSON, PAE, signatures, key id, walk); /verif/refschema spells out the metadata schema"},
+       {"name": "rewrite", "path": "/verif/rewrite", "serves_properties": ["C01","C02","C05","C06","C08","C10","C14","C16","C18"], "kind_free_text": "overlay generator: type-directed instrumentation of package in_toto from the current tree (map-order, clock, package-level state, os/exec, sync, go/channel seams); nothing is written to /repo"},
+       {"name": "sched", "path": "/verif/sched", "serves_properties": ["C14","C16"], "kind_free_text": "cooperative scheduler for real goroutines: preemption-bounded / exhaustive interleaving exploration, vector-clock race detection, exact deadlock detection"},
      ],
      "checks": [],
      "not_applicable": [],
